@@ -8,6 +8,9 @@ _Bool g_fully;                         /* fully-reduced forest (a skipped level 
 node_handle g_down;                    /* child of p along the fixed value */
 int g_down_i;                          /* ghost: the index the child was read at */
 _Bool g_rec_ret; unsigned g_rec_calls; unsigned g_rec_k; node_handle g_rec_p;      /* the step below */
+unsigned g_size; unsigned g_zs; int g_idx; node_handle g_ok_child;      /* the scan: entries of the node, the first position with an assignment below, its index, its child */
+int g_init_kind, g_init_k, g_init_i; node_handle g_init_p;            /* how the cursor node was set up: 1 redundant, 2 identity, 3 from the stored node */
+struct unpacked_node *g_Uf;
 struct forest *g_F; struct edge_value *g_ev; unsigned g_Z; struct unpacked_node *g_U;
 
 struct unpacked_node *iterator_templ__U_to(struct iterator_templ *self, unsigned k) { __CPROVER_assert(k == g_k, "the cursor is read at this variable"); return g_U; }
@@ -27,7 +30,7 @@ const struct forest *iterator_templ__F(struct iterator_templ *self) __CPROVER_re
 _Bool g_sets;                          /* set forest (first_pri is only used on relations) */
 _Bool iterator_templ__isForSets(const struct iterator_templ *self) __CPROVER_requires(1) __CPROVER_assigns() __CPROVER_ensures(__CPROVER_return_value == g_sets);
 #define RECORDS_THE_STEP_BELOW __CPROVER_requires(1) __CPROVER_assigns(g_rec_calls, g_rec_k, g_rec_p) \
-    __CPROVER_ensures(g_rec_calls == __CPROVER_old(g_rec_calls) + 1 && g_rec_k == k && g_rec_p == p && __CPROVER_return_value == g_rec_ret)
+    __CPROVER_ensures(g_rec_calls == __CPROVER_old(g_rec_calls) + 1 && g_rec_k == k && g_rec_p == p && __CPROVER_return_value == ((g_U == NULL) ? g_rec_ret : (p == g_ok_child)))
 _Bool verif_first_unpr_below(struct iterator_templ *self, unsigned k, node_handle p) RECORDS_THE_STEP_BELOW;
 #ifndef JOB_UNPR
 _Bool iterator_templ__first_unpr(struct iterator_templ *self, unsigned k, node_handle p) RECORDS_THE_STEP_BELOW;
@@ -41,14 +44,14 @@ _Bool EdgeOp_none__hasEdgeValues(void) { return 0; }        /* as EdgeOp_none::h
 void EdgeOp_none__accumulateOp(struct edge_value *a, const struct edge_value *b) __CPROVER_requires(0) __CPROVER_assigns() __CPROVER_ensures(1);
 void EdgeOp_none__clear(struct edge_value *a) __CPROVER_requires(0) __CPROVER_assigns() __CPROVER_ensures(1);
 struct edge_value EdgeOp_none__applyOp(const struct edge_value *a, const struct edge_value *b) __CPROVER_requires(0) __CPROVER_assigns() __CPROVER_ensures(1);
-void unpacked_node__initRedundant(struct unpacked_node *u, int k, node_handle p) REQUIRES(the_scan_over_a_free_variable_is_not_entered, 0) __CPROVER_assigns() __CPROVER_ensures(1);
-void unpacked_node__initRedundant_ev(struct unpacked_node *u, int k, const struct edge_value *ev, node_handle p) REQUIRES(the_scan_over_a_free_variable_is_not_entered, 0) __CPROVER_assigns() __CPROVER_ensures(1);
-void unpacked_node__initIdentity(struct unpacked_node *u, int k, int i, node_handle p) REQUIRES(the_scan_over_a_free_variable_is_not_entered, 0) __CPROVER_assigns() __CPROVER_ensures(1);
-void unpacked_node__initIdentity_ev(struct unpacked_node *u, int k, int i, const struct edge_value *ev, node_handle p) REQUIRES(the_scan_over_a_free_variable_is_not_entered, 0) __CPROVER_assigns() __CPROVER_ensures(1);
-void unpacked_node__initFromNode(struct unpacked_node *u, node_handle p) REQUIRES(the_scan_over_a_free_variable_is_not_entered, 0) __CPROVER_assigns() __CPROVER_ensures(1);
-unsigned unpacked_node__getSize(const struct unpacked_node *u) REQUIRES(the_scan_over_a_free_variable_is_not_entered, 0) __CPROVER_assigns() __CPROVER_ensures(1);
-int unpacked_node__index(const struct unpacked_node *u, unsigned z) REQUIRES(the_scan_over_a_free_variable_is_not_entered, 0) __CPROVER_assigns() __CPROVER_ensures(1);
-node_handle unpacked_node__down(const struct unpacked_node *u, unsigned z) REQUIRES(the_scan_over_a_free_variable_is_not_entered, 0) __CPROVER_assigns() __CPROVER_ensures(1);
+void unpacked_node__initRedundant(struct unpacked_node *u, int k, node_handle p) REQUIRES(only_the_cursor_node_of_a_free_variable_is_used, u != NULL && (u == g_U || u == g_Uf)) __CPROVER_assigns(g_init_kind, g_init_k, g_init_i, g_init_p) __CPROVER_ensures(g_init_kind == 1 && g_init_k == k && g_init_p == p);
+void unpacked_node__initRedundant_ev(struct unpacked_node *u, int k, const struct edge_value *ev, node_handle p) __CPROVER_requires(0) __CPROVER_assigns() __CPROVER_ensures(1);
+void unpacked_node__initIdentity(struct unpacked_node *u, int k, int i, node_handle p) REQUIRES(only_the_cursor_node_of_a_free_variable_is_used, u != NULL && (u == g_U || u == g_Uf)) __CPROVER_assigns(g_init_kind, g_init_k, g_init_i, g_init_p) __CPROVER_ensures(g_init_kind == 2 && g_init_k == k && g_init_i == i && g_init_p == p);
+void unpacked_node__initIdentity_ev(struct unpacked_node *u, int k, int i, const struct edge_value *ev, node_handle p) __CPROVER_requires(0) __CPROVER_assigns() __CPROVER_ensures(1);
+void unpacked_node__initFromNode(struct unpacked_node *u, node_handle p) REQUIRES(only_the_cursor_node_of_a_free_variable_is_used, u != NULL && (u == g_U || u == g_Uf)) __CPROVER_assigns(g_init_kind, g_init_k, g_init_i, g_init_p) __CPROVER_ensures(g_init_kind == 3 && g_init_p == p);
+unsigned unpacked_node__getSize(const struct unpacked_node *u) REQUIRES(only_the_cursor_node_of_a_free_variable_is_used, u != NULL && (u == g_U || u == g_Uf)) __CPROVER_assigns() __CPROVER_ensures(__CPROVER_return_value == g_size);
+int unpacked_node__index(const struct unpacked_node *u, unsigned z) REQUIRES(only_the_cursor_node_of_a_free_variable_is_used, u != NULL && (u == g_U || u == g_Uf)) REQUIRES(entries_are_read_inside_the_node, z < g_size) __CPROVER_assigns() __CPROVER_ensures(z != g_zs || __CPROVER_return_value == g_idx);
+node_handle unpacked_node__down(const struct unpacked_node *u, unsigned z) REQUIRES(only_the_cursor_node_of_a_free_variable_is_used, u != NULL && (u == g_U || u == g_Uf)) REQUIRES(children_are_read_inside_the_node, z < g_size) __CPROVER_assigns() __CPROVER_ensures((z >= g_zs || __CPROVER_return_value != g_ok_child) && (z != g_zs || __CPROVER_return_value == g_ok_child));
 struct edge_value *unpacked_node__edgeval(const struct unpacked_node *u, unsigned z) __CPROVER_requires(0) __CPROVER_assigns() __CPROVER_ensures(1);
 struct edge_value *verif_zero_ev(void) __CPROVER_requires(0) __CPROVER_assigns() __CPROVER_ensures(1);
 
@@ -57,31 +60,39 @@ struct edge_value *verif_zero_ev(void) __CPROVER_requires(0) __CPROVER_assigns()
 #define AT_LEVEL  ((int)k == -g_plvl)
 _Bool iterator_templ__first_pri(struct iterator_templ *self, unsigned k, node_handle p)
 __CPROVER_requires(self != NULL && k == g_k && p == g_p && k >= 1 && k <= (1u << 30) && verif_exc == 0)
-__CPROVER_requires(g_U == NULL)                                     /* the mask fixes x'_k */
-__CPROVER_requires(g_mask_to >= 0 || g_mask_to == DONT_CHANGE)
+__CPROVER_requires(g_U == NULL || (__CPROVER_is_fresh(g_U, 1) && g_size <= (1u << 20)))     /* g_U == NULL: the mask fixes x'_k; otherwise x'_k is free and g_U is its cursor node */
+__CPROVER_requires(g_U != NULL || g_mask_to >= 0 || g_mask_to == DONT_CHANGE)
 __CPROVER_requires(g_Mfrom >= 0 && (g_mask_to == DONT_CHANGE || g_Mto == g_mask_to))        /* the caller wrote the fixed value into the assignment */
 __CPROVER_requires(g_rec_calls == 0)
-__CPROVER_assigns(g_Mto, g_Z, g_rec_calls, g_rec_k, g_rec_p, g_down_i)
+__CPROVER_assigns(g_Mto, g_Z, g_rec_calls, g_rec_k, g_rec_p, g_down_i, g_init_kind, g_init_k, g_init_i, g_init_p)
 ENSURES(nothing_is_raised, verif_exc == 0)
-ENSURES(the_unprimed_value_is_left_alone, g_Mfrom == __CPROVER_old(g_Mfrom) && g_Z == __CPROVER_old(g_Z))
+ENSURES(the_unprimed_value_is_left_alone, g_Mfrom == __CPROVER_old(g_Mfrom) && (g_U != NULL || g_Z == __CPROVER_old(g_Z)))
 ENSURES(the_empty_function_has_no_assignment, p != 0 || (__CPROVER_return_value == 0 && g_rec_calls == 0))
-ENSURES(an_unchanged_position_takes_the_unprimed_value, p == 0 || g_mask_to != DONT_CHANGE || g_Mto == g_Mfrom)
-ENSURES(a_fixed_position_keeps_the_fixed_value, p == 0 || g_mask_to == DONT_CHANGE || g_Mto == g_mask_to)
-ENSURES(a_node_at_the_level_is_followed_along_the_fixed_value, !(p != 0 && AT_LEVEL) ||
+ENSURES(an_unchanged_position_takes_the_unprimed_value, p == 0 || g_U != NULL || g_mask_to != DONT_CHANGE || g_Mto == g_Mfrom)
+ENSURES(a_fixed_position_keeps_the_fixed_value, p == 0 || g_U != NULL || g_mask_to == DONT_CHANGE || g_Mto == g_mask_to)
+ENSURES(a_node_at_the_level_is_followed_along_the_fixed_value, !(p != 0 && g_U == NULL && AT_LEVEL) ||
         (g_rec_calls == 1 && g_rec_k == k - 1 && g_rec_p == g_down && g_down_i == g_Mto && __CPROVER_return_value == g_rec_ret))
-ENSURES(a_skipped_redundant_level_matches_every_value, !(p != 0 && !AT_LEVEL && g_fully) ||
+ENSURES(a_skipped_redundant_level_matches_every_value, !(p != 0 && g_U == NULL && !AT_LEVEL && g_fully) ||
         (g_rec_calls == 1 && g_rec_k == k - 1 && g_rec_p == p && __CPROVER_return_value == g_rec_ret))
 /* the property: across a skipped primed level of a forest that is not fully reduced the function is the identity pattern: x'_k == x_k matches, anything else does not -
  * whatever the mask says about x_k */
-ENSURES(a_skipped_identity_level_matches_exactly_the_equal_value, !(p != 0 && !AT_LEVEL && !g_fully && g_Mto == g_Mfrom) ||
+ENSURES(a_skipped_identity_level_matches_exactly_the_equal_value, !(p != 0 && g_U == NULL && !AT_LEVEL && !g_fully && g_Mto == g_Mfrom) ||
         (g_rec_calls == 1 && g_rec_k == k - 1 && g_rec_p == p && __CPROVER_return_value == g_rec_ret))
-ENSURES(a_skipped_identity_level_rejects_every_other_value, !(p != 0 && !AT_LEVEL && !g_fully && g_Mto != g_Mfrom) ||
+ENSURES(a_skipped_identity_level_rejects_every_other_value, !(p != 0 && g_U == NULL && !AT_LEVEL && !g_fully && g_Mto != g_Mfrom) ||
         (g_rec_calls == 0 && __CPROVER_return_value == 0))
+/* ---- x'_k is free: the scan over the cursor node ---- */
+ENSURES(a_node_at_the_level_is_scanned_itself, !(p != 0 && g_U != NULL && AT_LEVEL) || (g_init_kind == 3 && g_init_p == p))
+ENSURES(a_skipped_redundant_level_is_scanned_over_every_value, !(p != 0 && g_U != NULL && !AT_LEVEL && g_fully) || (g_init_kind == 1 && g_init_k == -(int)k && g_init_p == p))
+ENSURES(a_skipped_identity_level_is_scanned_over_the_equal_value_only, !(p != 0 && g_U != NULL && !AT_LEVEL && !g_fully) ||
+        (g_init_kind == 2 && g_init_k == -(int)k && g_init_i == g_Mfrom && g_init_p == p))
+ENSURES(the_scan_stops_at_the_first_entry_with_an_assignment_below_and_reports_its_index, !(p != 0 && g_U != NULL && g_zs < g_size) ||
+        (__CPROVER_return_value == 1 && g_Z == g_zs && g_Mto == g_idx && g_rec_calls == g_zs + 1 && g_rec_k == k - 1 && g_rec_p == g_ok_child))
+ENSURES(a_scan_that_finds_nothing_has_tried_every_entry, !(p != 0 && g_U != NULL && g_zs >= g_size) || (__CPROVER_return_value == 0 && g_rec_calls == g_size))
 ;
 #endif
 
 /* ---- first_unpr on an unprimed variable the mask FIXES (U_from(k) == 0); the primed step (first_pri) records how it was called ---- */
-_Bool g_multi; unsigned g_term_calls; _Bool g_pri_ret; unsigned g_pri_calls; unsigned g_pri_k; node_handle g_pri_p; struct unpacked_node *g_Uf;
+_Bool g_multi; unsigned g_term_calls; _Bool g_pri_ret; unsigned g_pri_calls; unsigned g_pri_k; node_handle g_pri_p;
 struct unpacked_node *iterator_templ__U_from(struct iterator_templ *self, unsigned k) { __CPROVER_assert(k == g_k, "the cursor is read at this variable"); return g_Uf; }
 unsigned *iterator_templ__Z_from(struct iterator_templ *self, unsigned k) __CPROVER_requires(k == g_k) __CPROVER_assigns() __CPROVER_ensures(__CPROVER_return_value == &g_Z);
 _Bool iterator_templ__isMultiTerminal(const struct iterator_templ *self) __CPROVER_requires(1) __CPROVER_assigns() __CPROVER_ensures(__CPROVER_return_value == g_multi);
